@@ -41,6 +41,7 @@ func KVs[K comparable, V any](d Dict[K, V]) []frt.Tuple2[K, V] {
 	for k, v := range d.Fdict {
 		res = append(res, frt.NewTuple2(k, v))
 	}
+	res = verifOrderKVs(res)
 	return res
 }
 
@@ -49,6 +50,7 @@ func Keys[K comparable, V any](d Dict[K, V]) []K {
 	for k := range d.Fdict {
 		res = append(res, k)
 	}
+	res = verifOrderKeys(res)
 	return res
 }
 
@@ -57,6 +59,7 @@ func Values[K comparable, V any](d Dict[K, V]) []V {
 	for _, v := range d.Fdict {
 		res = append(res, v)
 	}
+	res = verifOrderValues(d.Fdict, res)
 	return res
 }
 
